@@ -406,7 +406,7 @@ def gen_alignments(rng):
             data[i] = [t, "woldemort", w.replace(" ", ""), w.split(), 20]
     return {"type": "alignments", "mode": "valid", "data": data, "prettify": rng.choice([True, False]),
             "analysis": "align", "swap_check": swap, "history": rng.choice([1, 2, 2]),
-            "ignore": rng.choice(["all", [], []])}
+            "ignore": rng.choice(["all", [], []]), "plant_local": rng.random() < 0.3}
 
 
 def from_json(c):
@@ -499,6 +499,11 @@ def ser_run(case):
             step["taxa"], step["concepts"] = list(obj.cols), sorted(obj.rows)   # plain str order, as lexstat.py:449 sorts
             step["pairs_before"] = _pairs(obj)
         if case["type"] == "alignments":
+            if case.get("plant_local"):
+                # align() never sets msa['local'] on a wordlist; a user (or a local-mode analysis) can:
+                # mark every second column, so that the LOCAL line of the block is exercised
+                for msa in obj.msa["cogid"].values():
+                    msa["local"] = list(range(0, len(msa["alignment"][0]), 2))
             step["msa_saved"] = _msa_struct(obj)
         obj.output("tsv", filename=path, prettify=case["prettify"], ignore=case.get("ignore", "all"))
         step["text"] = file_lines(path + ".tsv")
